@@ -13,6 +13,7 @@ import (
 	"verif/harness/rec"
 	"verif/harness/vcmp"
 	"verif/harness/zoo"
+	"verif/harness/zoo/twin"
 )
 
 // reach is the independent type walk: every struct type, slice type and named
@@ -146,6 +147,68 @@ var c16Types []reflect.Type
 func init() {
 	c16Types = append(c16Types, zoo.StructTypes...)
 	c16Types = append(c16Types, zoo.T(zoo.Tree{}), zoo.T(zoo.JMap{}), zoo.T(zoo.StrCarrier{}), zoo.T(zoo.TimeCarrier{}), zoo.T(zoo.IntLists{}), zoo.T(zoo.IntMapVals{}), zoo.T(zoo.FloatFields{}))
+	// same unqualified names as zoo.Inner / zoo.Nested / zoo.Scalars, other layouts
+	c16Types = append(c16Types, zoo.T(twin.Inner{}), zoo.T(twin.Nested{}), zoo.T(twin.Scalars{}), zoo.T(twin.Inner{}), zoo.T(twin.Nested{}), zoo.T(twin.Scalars{}))
+}
+
+// deepChain builds a chain of n SelfAny links; the link at depth `at` (0-based) carries in its interface
+// payload the only value of class `only` in the whole graph.
+func deepChain(n, at int, only reflect.Type) *zoo.SelfAny {
+	head := &zoo.SelfAny{N: 0}
+	cur := head
+	for i := 1; i < n; i++ {
+		cur.Next = &zoo.SelfAny{N: int32(i)}
+		if i%97 == 0 {
+			cur.X = []interface{}{int32(i), "filler"}
+		}
+		cur = cur.Next
+		if i == at {
+			cur.X = []interface{}{"payload", reflect.New(only).Interface()}
+		}
+	}
+	if at == 0 {
+		head.X = []interface{}{"payload", reflect.New(only).Interface()}
+	}
+	return head
+}
+
+// checkDeepChain: the maps extracted from a deep chain name the class that occurs only far down, and carry the chain.
+func checkDeepChain(n, at int, only reflect.Type) string {
+	chain := deepChain(n, at, only)
+	var tm map[string]reflect.Type
+	var nm map[string]string
+	if pv, st := guard(func() { tm, nm = hessian.ExtractTypeNameMap(chain) }); pv != nil {
+		return fmt.Sprintf("ExtractTypeNameMap panicked: %v [%s]", pv, st)
+	}
+	wire, ok := nm[only.Name()]
+	if !ok {
+		return fmt.Sprintf("name map has no entry for %v, held by the interface payload of link %d", only, at)
+	}
+	if got := tm[wire]; got != only {
+		return fmt.Sprintf("type map does not map %q back to %v, held by the interface payload of link %d (got %v)", wire, only, at, got)
+	}
+	var b []byte
+	var err error
+	var out interface{}
+	if pv, st := guard(func() { b, err = hessian.ToBytes(chain, nm) }); pv != nil || err != nil {
+		return fmt.Sprintf("encode with the extracted name map: %v %v [%s]", err, pv, st)
+	}
+	if pv, st := guard(func() { out, err = hessian.ToObject(b, tm) }); pv != nil || err != nil {
+		return fmt.Sprintf("decode with the extracted type map: %v %v [%s]", err, pv, st)
+	}
+	// walk the decoded chain (no recursion) down to the payload
+	cur, _ := out.(*zoo.SelfAny)
+	for i := 0; i < at && cur != nil; i++ {
+		cur = cur.Next
+	}
+	if cur == nil || len(cur.X) != 2 || reflect.TypeOf(cur.X[1]) != reflect.PtrTo(only) {
+		var got interface{}
+		if cur != nil && len(cur.X) == 2 {
+			got = cur.X[1]
+		}
+		return fmt.Sprintf("decoded chain: link %d does not hold a %v (got %T)", at, reflect.PtrTo(only), got)
+	}
+	return ""
 }
 
 func mapKeys(m map[string]reflect.Type) []string {
@@ -192,6 +255,25 @@ func TestC16(t *testing.T) {
 			r.Eval()
 		}
 	}
+	// ---- deep values: a class that occurs only far down a chain through interface slots
+	{
+		rng := seedFor("C16deep")
+		for i := 0; i < rec.EnvInt("VERIF_C16_DEEP", 12); i++ {
+			n := []int{300, 520, 700, 1100, 1500}[rng.next()%5]
+			at := int(rng.next() % uint64(n))
+			if i%2 == 0 {
+				at = n - 1 - int(rng.next()%8)
+			}
+			only := zoo.KTypes[rng.next()%uint64(len(zoo.KTypes))]
+			r.Current(fmt.Sprintf("C16 deep chain n=%d at=%d %v", n, at, only))
+			if msg := checkDeepChain(n, at, only); msg != "" {
+				directFail(t, "C16", map[string]interface{}{"entry": "ExtractTypeNameMap", "chain_links": n, "payload_at": at, "class": only.String()}, "C16 chain of %d links, class %v only at link %d: %s", n, only, at, msg)
+			}
+			r.Eval()
+			r.NonTrivial(av.Hash(fmt.Sprint("deep", n, at, only)))
+			r.Label(fmt.Sprintf("deep chain: payload class below depth %s", map[bool]string{true: "512", false: "<=512"}[at > 512]))
+		}
+	}
 	cfgs := map[string]zoo.Cfg{}
 	full := zoo.DefaultCfg()
 	full.MaxBig, full.Budget, full.NoBigStrings = 20, 200, true
@@ -216,7 +298,7 @@ func TestC16(t *testing.T) {
 		if !byPtr || typ.Kind() != reflect.Struct {
 			witness = w.Elem().Interface()
 		}
-		c.set("type", typ.Name())
+		c.set("type", typ.String())
 		c.set("fill", fill)
 		c.set("witness", zoo.Describe(witness, 300))
 		r.Current(fmt.Sprintf("C16 extract %s fill=%s ptr=%v %s", typ.Name(), fill, byPtr, zoo.Describe(witness, 200)))
@@ -277,7 +359,7 @@ func TestC16(t *testing.T) {
 			r.NonTrivial(av.Hash(typ.Name() + fill + zoo.Describe(witness, 2000)))
 		}
 		r.Label("fill:" + fill)
-		r.Label("type:" + typ.Name())
+		r.Label("type:" + typ.String())
 		r.Sample(func() interface{} {
 			return map[string]interface{}{"type": typ.Name(), "fill": fill, "by_pointer": byPtr, "witness": zoo.Describe(witness, 200), "name_map_size": len(nm), "type_map_size": len(tm)}
 		})
